@@ -85,6 +85,30 @@ def _rule(ctx, cfg):
         vc.check("on_epoch_end/last_epoch is the stopping epoch (None while running)",
                  (es.last_epoch is epoch) if did else (es.last_epoch is None))
         vc.check("on_epoch_end/nothing else written to the state", state.other_writes == [])
+        # history: the evaluator's record changes arbitrarily (cleared and refilled between runs, or simply longer) and
+        # the same stopper is asked again: only the current record counts
+        L2 = vc.fresh_int("L2", 0)
+        epoch2 = vc.fresh_int("epoch2")
+        ev.L = L2
+        ev.vals = z3.Array("m2_%d" % id(ev), z3.IntSort(), z3.RealSort())
+        ev.vars_ = z3.Array("var2_%d" % id(ev), z3.IntSort(), z3.RealSort())
+        vc.pc.append(z3.ForAll([j], z3.Select(ev.vars_, j) >= 0))
+        state2 = GhostState(stop=False)
+        es.on_epoch_end(state2, epoch2)
+        did2 = len(state2.stop_writes) > 0
+        ref2, cur2 = ev.value(L2 - 1 - p), ev.value(L2 - 1)
+        delta2 = ref2 - cur2
+        absd2 = ITE(delta2 >= 0, delta2, -delta2)
+        if crit == "absolute":
+            small2 = absd2 < tol
+        elif crit == "relative":
+            small2 = ITE(ref2 != 0, ITE(ref2 > 0, absd2 < tol * ref2, absd2 < -tol * ref2), AND(delta2 == 0, 0 < tol))
+        else:
+            var2 = ev.variance(L2 - 1 - p)
+            small2 = AND(var2 > 0, absd2 * absd2 < tol * tol * var2)
+        should2 = AND(epoch2 % period == 0, L2 >= p + 1, small2)
+        vc.check("history/a later call decides from the current record only (after clear_history, a second run, ...)",
+                 should2 == did2 if isinstance(should2 == did2, A.Sym) else bool(should2) == did2)
     vc.explore(run, "criterion=%s evaluator=%s" % (crit, kind))
     vc.flush()
     ctx.holds("exploration/paths > 0", vc.paths > 0, str(vc.paths))
